@@ -241,6 +241,9 @@ func ruleC17R2(c *Ctx) {
 			if cc.IsInvoke() && cc.Method.Name() == "Error" { // err.Error()
 				return false
 			}
+			if recvFieldMutation(in, "run.ReloadableOrchestrator") != "" {
+				return false // changing a state field back is R8's business (a failed reload leaves the wrapper as it found it)
+			}
 			okFail = false
 			offender = in
 			return true
@@ -604,4 +607,133 @@ func closureBindings(fv *ssa.FreeVar) []ssa.Value {
 		}
 	})
 	return out
+}
+
+// ---- C17.R8 (added after seed c17g): a failed reload leaves the wrapper as it found it. Whatever reload() changes in
+// the reloadable orchestrator before it knows that the new configuration is good (a state flag, a counter, a "reloading"
+// marker set by compare-and-swap) must be changed again on every path of the failure branch — directly, or by a defer
+// registered before the test — otherwise one rejected configuration has an effect beyond the error and the failure count
+// (every later reload request is discarded).
+func init() {
+	register("C17", "C17.R8", ruleC17R8)
+}
+
+// recvFieldMutation: in writes a field of a struct of the named type — a store, or a mutating method of a sync/atomic
+// value held in the field; returns the field
+func recvFieldMutation(in ssa.Instruction, typ string) string {
+	fieldOfAddr := func(a ssa.Value) string {
+		for i := 0; i < 3; i++ {
+			switch x := strip(a).(type) {
+			case *ssa.FieldAddr:
+				if typeName(x.X.Type()) == typ {
+					return fieldName(x.X.Type(), x.Field)
+				}
+				a = x.X
+				continue
+			case *ssa.IndexAddr:
+				a = x.X
+				continue
+			}
+			break
+		}
+		return ""
+	}
+	switch x := in.(type) {
+	case *ssa.Store:
+		return fieldOfAddr(x.Addr)
+	case ssa.CallInstruction:
+		f := x.Common().StaticCallee()
+		if f == nil || f.Pkg == nil || f.Pkg.Pkg.Path() != "sync/atomic" || len(x.Common().Args) == 0 {
+			return ""
+		}
+		switch f.Name() {
+		case "Store", "Swap", "CompareAndSwap", "Add", "And", "Or":
+			return fieldOfAddr(x.Common().Args[0])
+		}
+	}
+	return ""
+}
+
+func ruleC17R8(c *Ctx) {
+	fn := c.P.Fn(aReload)
+	const typ = "run.ReloadableOrchestrator"
+	init := sitesWhere(fn, func(s ssa.CallInstruction) bool { return fieldCallOf(s, "run.ReloadableOrchestrator.initiateReload") })
+	if len(init) != 1 {
+		broken("C17.R8: reload no longer has exactly one initiateReload call")
+	}
+	errv := resultOf(init[0].Value(), 1)
+	failE := nilEdges(errv, false)
+	c.floor("C17.R8", "failure edges of initiateReload", len(failE), 1)
+	// a defer whose target changes field F: the change happens at every return after the registration
+	deferMutates := func(in ssa.Instruction, field string) bool {
+		d, ok := in.(*ssa.Defer)
+		if !ok {
+			return false
+		}
+		if recvFieldMutation(d, typ) == field {
+			return true
+		}
+		var tgt *ssa.Function
+		if mc, ok := resolve(d.Call.Value).(*ssa.MakeClosure); ok {
+			tgt, _ = mc.Fn.(*ssa.Function)
+		} else if f := d.Call.StaticCallee(); f != nil && f.Blocks != nil {
+			tgt = f
+		}
+		if tgt == nil {
+			return false
+		}
+		hit := false
+		for _, g := range withAnons(tgt) {
+			eachInstr(g, func(i2 ssa.Instruction) {
+				if recvFieldMutation(i2, typ) == field {
+					hit = true
+				}
+			})
+		}
+		return hit
+	}
+	type mut struct {
+		in    ssa.Instruction
+		field string
+	}
+	var muts []mut
+	c.eachInstrR(fn, func(in ssa.Instruction) {
+		if _, isDefer := in.(*ssa.Defer); isDefer {
+			return
+		}
+		if f := recvFieldMutation(in, typ); f != "" {
+			muts = append(muts, mut{in, f})
+		}
+	})
+	nPre := 0
+	for b, si := range failE {
+		test := b.Instrs[len(b.Instrs)-1]
+		for _, m := range muts {
+			m := m
+			// can the change reach the failure test without a restoring defer having been registered?
+			qa := c.pq(fn)
+			qa.Barrier = func(in ssa.Instruction) bool { return deferMutates(in, m.field) }
+			if hit, _ := qa.Reach(after(m.in), func(in ssa.Instruction) bool { return in == test }); hit == nil {
+				continue
+			}
+			nPre++
+			qb := c.pq(fn)
+			qb.Barrier = func(in ssa.Instruction) bool {
+				return recvFieldMutation(in, typ) == m.field || deferMutates(in, m.field)
+			}
+			hit, trail := qb.Reach(succPoint(b, si), isReturn)
+			c.check(hit == nil, "C17.R8", fn, "a failed reload leaves "+m.field+" as it found it", m.in.Pos(),
+				"every path of the failure branch changes the field again before returning",
+				fmt.Sprintf("%s is changed at %s before the new configuration is known to be good, and the failure branch returns at %s without changing it back (%s): one rejected configuration has a lasting effect on the wrapper", m.field, c.P.pos(m.in.Pos()), func() string {
+					if hit != nil {
+						return c.P.pos(hit.Pos())
+					}
+					return "-"
+				}(), c.P.trailString(trail)))
+		}
+	}
+	c.count("C17.R8:changes of the wrapper before the configuration is known to be good", nPre)
+	if nPre == 0 {
+		c.ok("C17.R8", fn, "nothing of the wrapper is changed before initiateReload has succeeded", init[0].Pos(), fmt.Sprintf("%d field mutation(s) in reload's region, none can reach the failure test", len(muts)))
+	}
 }
